@@ -15,8 +15,9 @@ import (
 
 // The `ev` section: sequential histories over real event.Event1[int] objects.
 //
-//	ev new <max>               New1[int](WithMaxTriggerCount(max)), max 0 = unlimited        -> e<i>
-//	ev hook <e> <max> sync|pool  Hook with WithMaxTriggerCount / WithWorkerPool               -> h<i>
+//	ev new <max> [pre]         New1[int](WithMaxTriggerCount(max)[, WithPreTriggerFunc]), max 0 = unlimited   -> e<i>
+//	ev hook <e> <max> sync|pool [pre]  Hook with WithMaxTriggerCount / WithWorkerPool / WithPreTriggerFunc   -> h<i>
+//	                           log entries: <h>:<a> invocation, E<e>:<a> / P<h>:<a> pre-trigger function of event / hook
 //	ev unhook <h>
 //	ev trigger <e> <a>         -> sync [h:a ...] pool [h:a ...]   (pooled calls after the pool drained, sorted)
 //	ev link <src> <tgt>        src.LinkTo(tgt), only tgt < src (acyclic)
@@ -26,6 +27,7 @@ import (
 type evCall struct {
 	h, a   int
 	pooled bool
+	kind   string // "" invocation, "E" event pre-trigger function (h = event), "P" hook pre-trigger function
 }
 
 // oracle records (the property's reading, independent of the Lean model)
@@ -35,11 +37,13 @@ type oHook struct {
 	max, count    int
 	fired         int
 	pooled, alive bool
+	pre           bool
 }
 
 type oEvent struct {
 	max, count int
 	link       *oHook
+	pre        bool
 }
 
 type evWorld struct {
@@ -84,7 +88,7 @@ func (v *evWorld) finish(w *world) {
 func fmtCalls(cs []evCall) string {
 	parts := make([]string, len(cs))
 	for i, c := range cs {
-		parts[i] = fmt.Sprintf("%d:%d", c.h, c.a)
+		parts[i] = fmt.Sprintf("%s%d:%d", c.kind, c.h, c.a)
 	}
 
 	return "[" + strings.Join(parts, " ") + "]"
@@ -110,10 +114,16 @@ func (v *evWorld) expect(e, a int, out *[]evCall) {
 			continue
 		}
 		h.fired++
+		if oe.pre {
+			*out = append(*out, evCall{e, a, false, "E"})
+		}
+		if h.pre {
+			*out = append(*out, evCall{h.handle, a, false, "P"})
+		}
 		if h.link >= 0 {
 			v.expect(h.link, a, out)
 		} else {
-			*out = append(*out, evCall{h.handle, a, h.pooled})
+			*out = append(*out, evCall{h.handle, a, h.pooled, ""})
 		}
 	}
 }
@@ -134,24 +144,34 @@ func (w *world) execEV(f []string) string {
 	switch f[0] {
 	case "new":
 		m, ok := num(1)
-		if !ok || len(f) != 2 {
+		if !ok || !(len(f) == 2 || (len(f) == 3 && f[2] == "pre")) {
 			return "bad-op"
 		}
+		pre := len(f) == 3
+		var eopts []event.Option
 		if m > 0 {
-			v.events = append(v.events, event.New1[int](event.WithMaxTriggerCount(uint64(m))))
-		} else {
-			v.events = append(v.events, event.New1[int]())
+			eopts = append(eopts, event.WithMaxTriggerCount(uint64(m)))
 		}
-		v.oev = append(v.oev, &oEvent{max: m})
+		if pre {
+			idx := len(v.events)
+			eopts = append(eopts, event.WithPreTriggerFunc(func(a int) {
+				v.mu.Lock()
+				v.log = append(v.log, evCall{idx, a, false, "E"})
+				v.mu.Unlock()
+			}))
+		}
+		v.events = append(v.events, event.New1[int](eopts...))
+		v.oev = append(v.oev, &oEvent{max: m, pre: pre})
 
 		return fmt.Sprintf("e%d", len(v.events)-1)
 	case "hook":
 		e, ok1 := num(1)
 		m, ok2 := num(2)
-		if !ok1 || !ok2 || len(f) != 4 || (f[3] != "sync" && f[3] != "pool") || e >= len(v.events) {
+		if !ok1 || !ok2 || !(len(f) == 4 || (len(f) == 5 && f[4] == "pre")) || (f[3] != "sync" && f[3] != "pool") || e >= len(v.events) {
 			return "bad-op"
 		}
 		pooled := f[3] == "pool"
+		pre := len(f) == 5
 		h := len(v.hooks)
 		var opts []event.Option
 		if m > 0 {
@@ -160,12 +180,19 @@ func (w *world) execEV(f []string) string {
 		if pooled {
 			opts = append(opts, event.WithWorkerPool(v.getPool()))
 		}
+		if pre {
+			opts = append(opts, event.WithPreTriggerFunc(func(a int) {
+				v.mu.Lock()
+				v.log = append(v.log, evCall{h, a, false, "P"})
+				v.mu.Unlock()
+			}))
+		}
 		v.hooks = append(v.hooks, v.events[e].Hook(func(a int) {
 			v.mu.Lock()
-			v.log = append(v.log, evCall{h, a, pooled})
+			v.log = append(v.log, evCall{h, a, pooled, ""})
 			v.mu.Unlock()
 		}, opts...))
-		oh := &oHook{ev: e, handle: h, link: -1, max: m, pooled: pooled, alive: true}
+		oh := &oHook{ev: e, handle: h, link: -1, max: m, pooled: pooled, alive: true, pre: pre}
 		v.ohooks = append(v.ohooks, oh)
 		v.ouser = append(v.ouser, oh)
 
@@ -297,6 +324,8 @@ func (w *world) execEV(f []string) string {
 }
 
 var evCorpus = [][]string{
+	{"ev new 0 pre", "ev hook 0 0 sync", "ev hook 0 1 pool pre", "ev hook 0 0 sync pre", "ev unhook 0", "ev trigger 0 5", "ev hook 0 3 sync", "ev trigger 0 6"},
+	{"ev new 0 pre", "ev new 1 pre", "ev hook 1 0 sync pre", "ev hook 0 2 sync pre", "ev link 1 0", "ev trigger 0 1", "ev trigger 0 2", "ev trigger 0 3", "ev trigger 1 4"},
 	{"ev new 0", "ev hook 0 0 sync", "ev hook 0 2 sync", "ev hook 0 0 pool", "ev trigger 0 7", "ev trigger 0 8", "ev trigger 0 9", "ev hcount 1", "ev unhook 0", "ev trigger 0 1", "ev tcount 0"},
 	{"ev new 2", "ev new 0", "ev hook 0 0 sync", "ev hook 1 0 sync", "ev link 1 0", "ev trigger 0 1", "ev trigger 0 2", "ev trigger 0 3", "ev trigger 1 4", "ev tcount 0", "ev tcount 1"},
 	{"ev new 0", "ev new 0", "ev new 0", "ev hook 2 0 sync", "ev link 2 0", "ev trigger 0 1", "ev link 2 1", "ev trigger 0 2", "ev trigger 1 3", "ev unlink 2", "ev trigger 1 4", "ev link 2 1", "ev link 2 1", "ev trigger 1 5"},
@@ -308,7 +337,11 @@ func genEV(rng *hx.Rng, n int) []string {
 	ne := 1 + rng.Intn(4)
 	var ops []string
 	for i := 0; i < ne; i++ {
-		ops = append(ops, fmt.Sprintf("ev new %d", hx.Pick(rng, []int{0, 0, 0, 1, 2, 4})))
+		pre := ""
+		if rng.Chance(1, 3) {
+			pre = " pre"
+		}
+		ops = append(ops, fmt.Sprintf("ev new %d%s", hx.Pick(rng, []int{0, 0, 0, 1, 2, 4}), pre))
 	}
 	hooks := 0
 	for i := 0; i < n; i++ {
@@ -317,6 +350,9 @@ func genEV(rng *hx.Rng, n int) []string {
 			kind := "sync"
 			if rng.Chance(1, 4) {
 				kind = "pool"
+			}
+			if rng.Chance(1, 4) {
+				kind += " pre"
 			}
 			ops = append(ops, fmt.Sprintf("ev hook %d %d %s", rng.Intn(ne), hx.Pick(rng, limits), kind))
 			hooks++
